@@ -253,6 +253,34 @@ def run(R):
             okm = False
             R.viol("C18.merge", "anchor-missing:%s" % fn, "merge function not found: %s" % fn)
     R.inst("C18.merge", "K2 mutator whitelist", "sync / insert paths never remove, retain, truncate or clear", n, okm)
+    # every peer / address of the other side is merged: the merge loop is reached on every path and no iteration skips the merge
+    for fn, fld, sinks in ((CD + "::sync", "peers", [AB + "BootstrapAddresses::sync"]), (AB + "BootstrapAddresses::sync", "0", [AB + "BootstrapAddr::sync", AB + "BootstrapAddresses::insert_addr"])):
+        mb = R.body("C18.merge.every", fn)
+        if mb is None:
+            continue
+        prep(mb)
+        other = Taint(mb).closure(PL(mb, 1))
+        def from_other(names, fields, mb=mb, other=other, fld=fld):
+            return True
+        R.every_iteration("C18.merge.every", mb, lambda names, fields: any(n.endswith(("::iter", "IntoIterator::into_iter", "IntoIterator>::into_iter")) for n in names),
+                          CallSink(*sinks), "%s merges every entry of the other side" % fn.split("::")[-2], "the other side's entries")
+        g2 = cfg_of(mb)
+        nxt = set(b["id"] for b in mb.blocks if b["term"]["k"] == "call" and not b["cleanup"] and (b["term"]["ngen"] or "").endswith("iterator::Iterator::next"))
+        rets2 = {b["id"] for b in mb.blocks if b["term"]["k"] == "return" and not b["cleanup"]}
+        okl = bool(nxt) and not (g2.reach((0,), avoid=nxt) & rets2)
+        if not okl:
+            R.viol("C18.merge.always", "merge-skipped:%s" % fn.split("::")[-2], "%s can return without walking the other side's entries (an early return before the merge loop)" % fn, mb, mb.lines[0])
+        R.inst("C18.merge.always", "K5 must-follow", "%s always walks the other side's entries" % fn.split("::")[-2], len(nxt), okl)
+    # the cache file is read whole
+    lc = R.body("C18.load.whole", BCS + "::load_cache_data")
+    if lc is not None:
+        calls = [c["ncallee"] or "" for b in F.item(BCS + "::load_cache_data") for c in b.calls]
+        partial = [c for c in calls if c.endswith(("io::Read::take", "Read>::take", "io::Read::read_exact", "Read>::read_exact", "io::Read::read", "Read>::read", "io::Read::bytes", "BufRead::read_line", "BufRead>::read_line", "BufRead::lines"))]
+        whole = [c for c in calls if c.endswith(("read_to_string", "read_to_end", "serde_json::de::from_reader"))]
+        okw = bool(whole) and not partial
+        if not okw:
+            R.viol("C18.load.whole", "partial-read", "load_cache_data does not read the whole cache file (%s): a large but legal cache is truncated, fails to parse and is overwritten" % (partial[:1] or "no whole-file read"), lc, lc.lines[0])
+        R.inst("C18.load.whole", "K1 forbidden-callee", "the cache file is read to its end before parsing", len(whole) + len(partial), okw)
     sf = R.body("C18.flush", BCS + "::sync_and_flush_to_disk")
     if sf is not None:
         prep(sf)
@@ -264,8 +292,10 @@ def run(R):
         # sync happens exactly on the Ok side of the load, with the loaded data; the Err side still writes
         gd = CallGuard([BCS + "::load_cache_data"], ("Ok",), "load_cache_data is Ok")
         n_, acc, rej = gd.edges(sf)
+        rets_ = {b["id"] for b in sf.blocks if b["term"]["k"] == "return" and not b["cleanup"]}
         ok = ok and bool(acc) and not (set(sy) & g.reach((0,), cut=acc)) and all(not (g.reach((d,), avoid=set(sy)) & set(wr_)) for _, d in acc) \
-            and all(g.reach((d,)) & set(wr_) for _, d in rej)
+            and all(g.reach((d,)) & set(wr_) for _, d in rej) \
+            and all(not (g.reach((d,), avoid=set(wr_)) & rets_) for _, d in rej)   # *whatever* the load error, the file is overwritten (a corrupt / foreign file is ignored)
         if ok:
             loaded = Taint(sf, through="all").closure({g.term(ld[0])["d"][0]})
             ok = all(op_local(g.term(b)["args"][1]) in loaded for b in sy)
